@@ -496,6 +496,79 @@ def corrupt_sweep(ctx, r, budget_s):
     ctx.notes.append(f'corruption sweep (robustness, outside the truncation theorem): {nfiles} files in {time.time() - t0:.0f}s')
 
 
+def member_field_positions(member):
+    """positions inside one archive member (varinfo section, or an expression file): header bytes and section magic/length fields"""
+    pos = {}
+    p = 0
+    if member.startswith(b'DIMODEXPR'):
+        pre, ver, text, hend = F.split_header(member)
+        pos.update({q: 'member header (prefix, version, length, dictionary text)' for q in range(len(pre) + 6 + len(text) + 1)})
+        p = hend
+    while p + 8 <= len(member):
+        mg = member[p:p + 4]
+        nlb = 8 if mg == b'QUAD' else 4
+        for q in range(p, min(p + 4 + nlb, len(member))):
+            pos[q] = 'member section magic or length'
+        p += 4 + nlb + int.from_bytes(member[p + 4:p + 4 + nlb], 'little')
+    return pos
+
+
+def rebuild_cqm(header, members):
+    buf = io.BytesIO()
+    buf.write(header)
+    with zipfile.ZipFile(buf, mode='a') as zf:
+        for nm, b in members:
+            zf.writestr(nm, b)
+    return buf.getvalue()
+
+
+def corrupt_sweep_cqm(ctx, r, budget_s):
+    """single-byte corruptions of the CQM header and of the header / section length fields INSIDE archive members
+    (`varinfo`, `objective`, every `lhs`); the archive is rebuilt around the corrupted member.  Robustness only."""
+    import time
+    t0 = time.time()
+    nfiles = 0
+    while time.time() - t0 < budget_s:
+        spec = F.spec_cqm(r, False)
+        m = F.build(spec)
+        data = m.to_file().read()
+        pre, ver, text, hend = F.split_header(data)
+        members = C9.archive_of(data, hend)
+        blobs, meta = [], []
+        muts = (('zeroed', lambda b: 0), ('set to 0xff', lambda b: 255), ('low bit flipped', lambda b: b ^ 1), ('high bit flipped', lambda b: b ^ 128))
+        for p in range(len(pre) + 6 + len(text) + 1):
+            for name, f in muts:
+                nb = f(data[p])
+                if nb != data[p]:
+                    blobs.append(data[:p] + bytes([nb]) + data[p + 1:]); meta.append(('(file header)', p, 'file header', name, nb))
+        for i, (nm, b) in enumerate(members):
+            if not (nm in ('varinfo', 'objective') or nm.endswith('/lhs')):
+                continue
+            for p, region in member_field_positions(b).items():
+                for name, f in muts[:3] if r.random() < .5 else muts[1:]:
+                    nb = f(b[p])
+                    if nb != b[p]:
+                        mm = list(members)
+                        mm[i] = (nm, b[:p] + bytes([nb]) + b[p + 1:])
+                        blobs.append(rebuild_cqm(data[:hend], mm)); meta.append((nm, p, region, name, nb))
+        res = F.sweep_blobs(dimod.ConstrainedQuadraticModel.from_file, blobs)
+        nfiles += 1
+        for (nm, p, region, name, nb), rc, blob in zip(meta, res, blobs):
+            ctx.case(('corrupt', 'cqm', blob), nontrivial=True)
+            ctx.tick(f'corrupt cqm:{region}:{rc.split(":")[0] if rc is not None and rc.startswith("CRASH") else rc}')
+            if rc is None or rc.startswith('CRASH') or rc == 'HANG':
+                which = 'objective / lhs' if nm == 'objective' or nm.endswith('/lhs') else nm
+                src = (F.PRELUDE + "import zipfile\n" + F.emit(spec) + f"blob = bytes.fromhex('{blob.hex()}')\n"
+                       "try:\n    dimod.ConstrainedQuadraticModel.from_file(blob)\nexcept Exception:\n    pass\n")
+                ctx.fail('crash', 'ConstrainedQuadraticModel.from_file (corrupted file, robustness)',
+                         f'cqm: one byte changed in {region} of {which}',
+                         f'member {nm!r}, byte {p} ({region}) {name}: the interpreter did not survive the load: {rc}',
+                         repro=("import subprocess, sys\nsrc = " + repr(src) +
+                                "\np = subprocess.run([sys.executable, '-c', src])\nassert p.returncode == 0, p.returncode\n"),
+                         detail=dict(source=F.emit(spec), member=nm, position=p, value=nb))
+    ctx.notes.append(f'corruption sweep of CQM files (robustness): {nfiles} files in {time.time() - t0:.0f}s')
+
+
 def run(ctx):
     r = ctx.rng
     ctx.rule = ('random BQM (v1 and v2) / QM / CQM / DQM files and expression members; a case = one (file, prefix length) pair, every '
@@ -514,4 +587,5 @@ def run(ctx):
     raw_loader_cases(ctx, r, ctx.scale(120, 1500))
     if not ctx.quick:
         valgrind_sample(ctx, r, 3)
-        corrupt_sweep(ctx, r, 120)
+        corrupt_sweep(ctx, r, 90)
+        corrupt_sweep_cqm(ctx, r, 60)
